@@ -28,7 +28,8 @@ NUMBER_LIKE = ["1", "-1", "+1", "1.5", "1e5", "1E-5", ".5", "5.", "inf", "nan",
 DATE_LIKE = ["2001-01-01", "2001-366", "2001-001", "12:00", "12:00:60",
              "2001-01-01T12:00", "12:00:00.5Z", "12:00Z", "2001-01", "1:00",
              "2001-01-01T12:00:60", "12:00+01", "12:00-07:30", "2001-01-01Z"]
-SPECIAL = ["", " ", "  ", "a b", " lead", "trail ", "a  b", "a\tb", "a\nb",
+SPECIAL = ['say "hi"\n', '"q"\r\n', 'a"b\n', '\n"x"', 'two "q"\n\n', 'tab"\x0b',
+           "", " ", "  ", "a b", " lead", "trail ", "a  b", "a\tb", "a\nb",
            "a\r\nb", "a-\nb", "a -\n b", "a-\r\n b", "a-\n\n  b", "pre-\r\n\r\n post", "it's", 'say "hi"', "both ' and \"",
            "/* c */", "a/*b", "*/", "# hash", "a#b", "a=b", "a;b", "a,b", "(a)",
            "{a}", "<m>", "a&b", "a+b", "+a", "a-b", "a-", "-", "--", "a_", "_a",
